@@ -299,7 +299,7 @@ theorem erSpec_range (n : Nat) (hn : 0 < n) (p : List K) :
     0 ≤ EfficiencyRatio.erSpec n p ∧ EfficiencyRatio.erSpec n p ≤ 1 := by
   rcases List.eq_nil_or_concat p with rfl | ⟨h, x, rfl⟩
   · simp [EfficiencyRatio.erSpec]
-  · rw [EfficiencyRatio.erSpec_snoc]
+  · rw [List.concat_eq_append, EfficiencyRatio.erSpec_snoc]
     exact EfficiencyRatio.erOut_range n hn h x
 
 /-- EfficiencyRatio(n) on ANY finite stream (no condition on the inputs): one output per input,
